@@ -97,7 +97,7 @@ def random_case(rng: random.Random) -> dict:
     # validators not bound to the class, attached by argument / Annotated / enclosing field metadata
     case["ext"] = [{"name": f"x{i + 1}", "deps": [], "fld": "", "disc": [], "style": rng.choice(["raise", "yield"]),
                     "out": rng.choice(["pass", "fail"])} for i in range(rng.choice([0, 0, 1, 2]))]
-    case["extmode"] = rng.choice(["arg", "annotated", "field"]) if case["ext"] else "arg"
+    case["extmode"] = rng.choice(["arg", "annotated", "field", "recref"]) if case["ext"] else "arg"
     # an object-level constraint (@schema(max_props=k)): a structural error at the root of the object
     case["maxp"] = rng.choice([1, 2]) if len(fields) >= 2 and not case["ext"] and not case["depreq"] and rng.random() < 0.3 else 0
     # an InitVar dependency (declared parameter) -- kept out of field validators / yielded paths
